@@ -19,7 +19,8 @@ func ParseValidNameKV(validName string) (key, value, cusMsg string) {
 	splitIndex := strings.Index(tmp, "=")
 
 	// 如果没有则代表 validName 不为 k=v 类型, 只有一个字段如: required
-	if splitIndex == -1 {
+	// 注: "|" 在 "=" 之前的话, "=" 属于自定义 msg 里的内容, 如: required|a=b
+	if msgIndex := strings.Index(tmp, "|"); splitIndex == -1 || (msgIndex != -1 && msgIndex < splitIndex) {
 		// 需要确定下是否包含自定义 msg, 格式为: validName|xxx, 如: required|必填
 		key = tmp
 		cusMsgIndex := strings.Index(tmp, "|")
